@@ -211,8 +211,30 @@ func ruleP03LineWrites(p *Prog, r *Report) {
 		}
 		r.bad(rule, key, p.instrPos(ls.st), "an existing line's text is replaced by a freshly built string (the original bytes of the line are not preserved)")
 	}
-	if n < 4 {
-		r.undecided(rule, "floor", "-", "found %d stores to the text of existing lines, expected 4", n)
+	// an existing line is never replaced as a whole either (the replacement would carry a new
+	// line ending and drop the line's own)
+	for _, f := range p.srcFns {
+		if !strings.HasPrefix(pkgPathOfFn(f), modPath+"/klog/parser/reconciling") && !strings.HasPrefix(pkgPathOfFn(f), modPath+"/klog/app") {
+			continue
+		}
+		eachInstr(f, func(in ssa.Instruction) {
+			st, ok := in.(*ssa.Store)
+			if !ok {
+				return
+			}
+			ia, ok := st.Addr.(*ssa.IndexAddr)
+			if !ok || typeNameOf(st.Val.Type()) != "Line" {
+				return
+			}
+			if _, fld := fieldLoad(ia.X); fld == "lines" {
+				r.bad(rule, fnName(f)+":whole-line", p.instrPos(st), "an existing line of the reconciler is replaced by another Line value (its original bytes, including its own line ending, are not preserved)")
+			}
+		})
+	}
+	// (the reconcilers rewrite existing lines in four places today; statements may be merged, but
+	// closing a range and extending a summary remain two different rewrites)
+	if n < 2 {
+		r.undecided(rule, "floor", "-", "found %d stores to the text of existing lines, expected at least 2", n)
 	}
 }
 
